@@ -135,6 +135,26 @@ def variants(rng, cfg, sh):
             if 'u' in nss:
                 out.append(({'op': 'rmdir', 'iso': d.path('i'), 'udf': '/nosuchdir'}, 'rmdir/ns3/nonexistent'))
             break
+    for d in dirs:
+        if 'u' in d.names and 'i' in d.names and d.children:
+            out.append(({'op': 'rmdir', 'iso': '/NOSUCH', 'udf': d.path('u')}, 'rmdir/ns1/nonexistent+udf'))
+            break
+    for d in dirs:
+        if 'i' in d.names and not d.children and ('j' in d.names or 'u' in d.names):
+            # first namespace removable, later namespace is a non-empty / wrong directory
+            for d2 in dirs:
+                if d2 is not d and d2.children:
+                    if 'j' in d2.names:
+                        out.append(({'op': 'rmdir', 'iso': d.path('i'), 'joliet': d2.path('j')}, 'rmdir/ns2/not-empty'))
+                    if 'u' in d2.names:
+                        out.append(({'op': 'rmdir', 'iso': d.path('i'), 'udf': d2.path('u')}, 'rmdir/ns3/not-empty'))
+                    break
+            break
+    for f in files:
+        if 'u' in f.names and 'i' in f.names:
+            out.append(({'op': 'addlink', 'ons': 'i', 'old': f.path('i'), 'nns': 'u', 'new': f.path('u')}, 'addlink/duplicate-udf'))
+            out.append(({'op': 'addlink', 'ons': 'u', 'old': f.path('u'), 'nns': 'i', 'new': '/NOSUCHDIR/L.;1', 'rr': 'l' if rr else None}, 'addlink/udf-old/missing-parent'))
+            break
     for f in files:
         if 'i' in f.names:
             out.append(({'op': 'rmdir', 'iso': f.path('i')}, 'rmdir/is-file'))
@@ -186,6 +206,33 @@ def run_history(ctx, rng, cfg, nops):
                 ops = list(s.ops)
                 s.close()
                 s = histcheck.replay_session(cfg, ops, tempfile.gettempdir())
+    # El Torito tail: make the history end with a boot catalog so that refusals that need one can be injected
+    files_i = [f for f in sh.files() if 'i' in f.names]
+    if files_i and rng.random() < 0.4:
+        boot = rng.choice(files_i).path('i')
+        op = {'op': 'eltorito', 'boot': boot, 'kw': {}}
+        with isoapi.frozen_time():
+            res = s.apply(op)
+        if res == 'ok':
+            s.record(op, res)
+            n = len(s.ops)
+            other = rng.choice(files_i).path('i')
+            for v, cause in (
+                    ({'op': 'eltorito', 'boot': other, 'kw': {'media_name': 'bogus'}}, 'eltorito2/bad-media'),
+                    ({'op': 'eltorito', 'boot': other, 'kw': {'platform_id': 9}}, 'eltorito2/bad-platform'),
+                    ({'op': 'eltorito', 'boot': other, 'kw': {'media_name': 'floppy'}}, 'eltorito2/floppy-size'),
+                    ({'op': 'eltorito', 'boot': other, 'kw': {'media_name': 'hdemul', 'boot_info_table': True}}, 'eltorito2/hdemul-mbr'),
+                    ({'op': 'eltorito', 'boot': '/NOSUCH.;1', 'kw': {'boot_info_table': True}}, 'eltorito2/nonexistent-boot'),
+                    ({'op': 'isohybrid', 'kw': {}}, 'isohybrid/not-isolinux'),
+                    ({'op': 'isohybrid', 'kw': {'part_entry': 9}}, 'isohybrid/bad-part-entry'),
+                    ({'op': 'rmfile', 'ns': 'i', 'path': boot}, 'rmfile/boot-file'),
+                    ({'op': 'rmisohybrid'}, 'rmisohybrid/none')):
+                if rng.random() < 0.5:
+                    injected.append((n, (v, cause)))
+        else:
+            ops = list(s.ops)
+            s.close()
+            s = histcheck.replay_session(cfg, ops, tempfile.gettempdir())
     base_ops = list(s.ops)
     s.close()
     base_img, base_res, base_err = image_of(cfg, base_ops)
